@@ -24,8 +24,10 @@ REPO = os.environ.get("VERIF_REPO", "/repo")
 CACHE = os.environ.get("VERIF_CACHE") or os.path.join(ROOT, ".cache")
 LEAN = os.path.join(ROOT, "lean")
 GEN = os.path.join(LEAN, "XalanModel", "Generated")
-EVID = os.path.join(ROOT, "evidence")
-REPLAYS = os.path.join(ROOT, "replays")
+# runs against a scratch copy of the repository (mutation trials) must not overwrite the evidence of /repo
+_SCRATCH = os.path.realpath(REPO) != "/repo"
+EVID = os.path.join(CACHE, "evidence") if _SCRATCH else os.path.join(ROOT, "evidence")
+REPLAYS = os.path.join(CACHE, "replays") if _SCRATCH else os.path.join(ROOT, "replays")
 GUARD = "XALAN_C_VERIF_HOOKS"
 NPROC = os.cpu_count() or 4
 
